@@ -43,6 +43,16 @@ def gen(rng, tier):
     add(2, 32, 0, 8192, *good, "reject/ops", "err"); add(2, 32, 1, 8191, *good, "reject/mem", "err"); add(2, 32, 1, 0, *good, "reject/mem", "err")
     add(2, 32, 1, 8192, good[0], rbytes(rng, 7), "reject/salt", "err"); add(2, 32, 1, 8192, good[0], rbytes(rng, 8), "accept/salt", "ok")
     add(2, 32, 4294967296, 8192, *good, "reject/ops", "err")
+    # 64-bit cost parameters whose LOW 32 bits look valid: the range check applies to the caller's value, not to the truncated one
+    for ops in (2 ** 32 + 1, 2 ** 32 + 3, 2 ** 33 + 2, 2 ** 40 + 1, 2 ** 63 + 1):
+        for alg in (1, 2):
+            add(alg, 32, ops, 8192, *good, "reject/ops-wide", "err")
+    for w in (1, 2, 3):
+        cs.append(Case("pwhash_obj %d 8192 32 %s %s %s" % (2 ** 32 + w, hx(good[0]), hx(good[1]), hx(b"x")), cls="reject/ops-wide-obj", expect="err"))
+        cs.append(Case("pwhash_str %d 8192 %s %s %s" % (2 ** 32 + w, hx(good[0]), hx(rbytes(rng, 16)), hx(b"x")), cls="reject/ops-wide-str", expect="err"))
+    # the key pair derived from a password is libsodium's crypto_pwhash(32 bytes) → scalarmult_base, whatever hash_length the Config carries
+    for hl in (16, 31, 32, 33, 64):
+        cs.append(Case("pwhash_keypair 1 8192 %s %s %d" % (hx(good[0]), hx(good[1]), hl), cls="pwhash_keypair/hash_length"))
     # object API verify accepts the right password and rejects every other
     for i in range(20 if tier == "quick" else 300):
         pwd = rbytes(rng, i % 12)
